@@ -210,7 +210,15 @@ def pin_wraptext(p, res):
     rp = p.func('abbreviation.stringify.RepeaterPlaceholder')
     VR = shape.View(p, rp)
     loops = [n for n in VR.nodes if isinstance(n, ast.For)]
-    if len(loops) != 1:
+    searches = loops + [n for n in VR.nodes if isinstance(n, (ast.GeneratorExp, ast.ListComp))
+                        or (isinstance(n, ast.Call) and isinstance(n.func, ast.Name) and n.func.id in ('next', 'filter', 'reversed', 'some', 'find_index'))]
+    tops = [n for n in VR.nodes if isinstance(n, ast.Subscript) and src_of(n.value).endswith('.repeaters') and isinstance(n.slice, ast.UnaryOp)
+            and isinstance(n.slice.op, ast.USub) and isinstance(n.slice.operand, ast.Constant) and n.slice.operand.value == 1]
+    if not searches and tops:
+        # no search at all: only the top of the repeater stack is looked at
+        res.bad(F('PIN-WRAPTEXT', rp, tops[0], src_of(VR.stmt_of(tops[0])).split('\n')[0],
+                  '$# takes its text from the *closest implicit* repeater, which need not be the innermost one: here only the top of the stack is looked at, so a $# below an explicit *N that is itself inside the implicit repeater (ul>li*>p*2{$#}) gets the whole text instead of its line'))
+    elif len(loops) != 1:
         res.undecided('RepeaterPlaceholder', 'one search loop expected')
     else:
         lp = loops[0]
